@@ -115,6 +115,10 @@ func (g *G) SpellStr(v string) *Str {
 		q = '\''
 	}
 	raw := QuoteString(v, q)
+	if g.chance("superfluous", 5) {
+		mask := rapid.Uint64().Draw(g.T, "escmask")
+		raw = SpellWith(v, q, func(i int) bool { return mask>>(uint(i)%64)&1 == 1 })
+	}
 	if g.chance("rawtab", 4) {
 		// \t escape instead of a raw tab
 		raw = replaceRawTabs(raw)
